@@ -8,3 +8,30 @@ Theorem C01_render_displays_cells_and_resets :
     display (render f) = Some (cells f, sgr_default, Ground).
 Proof. exact render_displays. Qed.
 Print Assumptions C01_render_displays_cells_and_resets.
+
+(* the terminal string is built run by run *)
+Theorem C01_render_of_a_concatenation :
+  forall f g : fmtstr, render (f ++ g) = render f ++ render g.
+Proof. exact render_app. Qed.
+Print Assumptions C01_render_of_a_concatenation.
+
+(* a FmtStr none of whose runs switches anything on (attributes absent or explicitly False, no
+   colours) renders as its plain text: no escape sequence at all *)
+Theorem C01_unstyled_renders_as_its_text :
+  forall f : fmtstr, forallb (fun c => unstyled (c_a c)) f = true -> render f = text f.
+Proof. exact render_unstyled. Qed.
+Print Assumptions C01_unstyled_renders_as_its_text.
+
+(* what is displayed depends on the cells only, not on where the runs are cut *)
+Theorem C01_display_depends_on_the_cells_only :
+  forall f g : fmtstr, clean f = true -> clean g = true -> cells f = cells g ->
+    display (render f) = display (render g).
+Proof. exact same_cells_same_display. Qed.
+Print Assumptions C01_display_depends_on_the_cells_only.
+
+Example C01_nonvacuous :
+  let f := [C [104; 105; 10] (A 2 5 1 0 2 0 0 1); C [] (A 0 0 1 0 0 0 0 0); C [9; 65279; 120] (A 0 0 0 0 0 1 0 0)] in
+  let u := [C [104; 105] (A 0 0 2 0 0 0 0 2); C [33] (A 0 0 0 0 0 0 0 0)] in
+  clean f = true /\ length (cells f) = 6%nat /\ display (render f) = Some (cells f, sgr_default, Ground) /\
+  forallb (fun c => unstyled (c_a c)) u = true /\ render u = [104; 105; 33].
+Proof. vm_compute. repeat split. Qed.
